@@ -48,22 +48,30 @@ ASSUMPTIONS = [
     'sample rate and amplitudes are powers of two in the sampling cases so that float division is exact',
 ]
 
-GEN_FILE = os.path.join(vlib.COQ, 'C20', 'Gen_performance.v')
-KERNELS = ['_is_monotonic_numba', '_shrink_overlapping_windows_numba']
+GEN = [   # (generated file, source file in the repo, kernels, declared element kinds of unannotated / ndarray parameters)
+    ('Gen_performance.v', 'qupulse/utils/performance.py',
+     ['_is_monotonic_numba', '_shrink_overlapping_windows_numba', '_time_windows_to_samples_sorted_numba'],
+     {'_time_windows_to_samples_sorted_numba': {'begins': 'list Q', 'lengths': 'list Q'}}),
+    ('Gen_util.v', 'qupulse/hardware/util.py', ['_voltage_to_uint16_numba'],
+     {'_voltage_to_uint16_numba': {'voltage': 'list Q'}}),
+]
 
 
 def pregen(ctx):
     import sys
     sys.path.insert(0, os.path.join(vlib.VERIF, 'translate'))
     import py2gallina_c20
-    name = 'translate:qupulse/utils/performance.py::' + '+'.join(KERNELS)
-    try:
-        txt = py2gallina_c20.translate_functions(os.path.join(vlib.REPO, 'qupulse/utils/performance.py'), KERNELS)
-        txt = txt.replace(vlib.REPO, '/repo')
-        vlib.write_if_changed(GEN_FILE, txt + '\n')
-        return [{'name': name, 'ok': True, 'detail': 'translated'}]
-    except Exception as e:   # Unsupported, SyntaxError, ...
-        return [{'name': name, 'ok': False, 'detail': 'translator refused the current source: %s' % e}]
+    obs = []
+    for gen_file, src, kernels, types in GEN:
+        name = 'translate:%s::%s' % (src, '+'.join(kernels))
+        try:
+            txt = py2gallina_c20.translate_functions(os.path.join(vlib.REPO, src), kernels, types=types)
+            txt = txt.replace(vlib.REPO, '/repo')
+            vlib.write_if_changed(os.path.join(vlib.COQ, 'C20', gen_file), txt + '\n')
+            obs.append({'name': name, 'ok': True, 'detail': 'translated'})
+        except Exception as e:   # Unsupported, SyntaxError, ...
+            obs.append({'name': name, 'ok': False, 'detail': 'translator refused the current source: %s' % e})
+    return obs
 
 
 CHN = {'A': 1, 'B': 2, 'M': 3, 'N': 4, 0: 0, 'Z': 9}       # channel ids -> Z for the model
